@@ -241,7 +241,7 @@ pub fn run(ctx: &mut Ctx) {
     ctx.assume("group equality is decided through invariants: abelianisation, subgroup-class counts for small index, order when finite");
     crate::props::run_regressions(ctx, "C09");
     ctx.layer("exhaustive");
-    let dsets: Vec<DS> = { let mut v = dsets_up_to(2, t.pick(5, 7)); v.extend(dsets_up_to(3, t.pick(3, 4))); v };
+    let dsets: Vec<DS> = { let mut v = dsets_up_to(2, t.pick(5, 7)); v.extend(dsets_up_to(3, t.pick(3, 4))); v.extend(dsets_up_to(4, t.pick(3, 4))); v.extend(dsets_up_to(5, 3)); v };
     let mut cases: Vec<FgCase> = vec![];
     let mut complete = true;
     for ds in &dsets {
@@ -262,7 +262,7 @@ pub fn run(ctx: &mut Ctx) {
         let pool = pool.clone();
         ctx.run_prop(&SUB_FG, move || pooled_symbol(pool.clone()).prop_map(FgCase), n);
     }
-    ctx.run_prop(&SUB_FG, || prop_oneof![random_symbol(2, 6..=40), random_symbol(3, 5..=40)].prop_map(FgCase), n / 3);
+    ctx.run_prop(&SUB_FG, || prop_oneof![random_symbol(2, 6..=40), random_symbol(3, 5..=40), random_symbol(4, 4..=30), random_symbol(5, 4..=24)].prop_map(FgCase), n / 3);
     ctx.run_prop(&SUB_FG, || prop_oneof![random_symbol(2, 80..=300), random_symbol(3, 80..=300)].prop_map(FgCase), n / 60);
 }
 
